@@ -258,11 +258,33 @@ type sent struct {
 	writer       int
 }
 
-func c06Body(nPer int, twoWriters bool, early bool) func() {
+func c06Body(nPer int, twoWriters bool, early bool, stallFor ...time.Duration) func() {
 	return func() {
 		simrt.ClearTraceHooks()
 		fakews.SetLatency(time.Millisecond)
 		a, b := fakews.Pipe("cli", "srv")
+		if len(stallFor) > 0 && stallFor[0] > 0 {
+			// back pressure: both transports take no data for a while, beginning with the first SPINE frame, and resume well
+			// before the write deadline; the connections stay open, so nothing may be lost
+			for _, sock := range []*fakews.Conn{a, b} {
+				sock := sock
+				first, began := true, false
+				sock.StallWrites = func(f fakews.Frame) bool {
+					if f.Type == fakews.BinaryMessage && len(f.Data) > 0 && f.Data[0] == 2 && first {
+						first, began = false, true
+						return true
+					}
+					return false
+				}
+				simrt.Go("backpressure-"+sock.Name, func() {
+					simrt.Block("stall-began", func() bool { return began })
+					over := false
+					simrt.NewTimer(stallFor[0], 0, "backpressure-over", func() { over = true })
+					simrt.Block("stall-over", func() bool { return over })
+					sock.Unstall()
+				})
+			}
+		}
 		cli := newStack("cli", a, false, true, "")
 		srv := newStack("srv", b, true, true, "")
 		seq := 0
@@ -464,6 +486,16 @@ func c06Scenarios(r *hx.Run) []hx.Scenario {
 			}
 			out = append(out, hx.Scenario{Name: fmt.Sprintf("c06:burst:server=%v,early=%d,late=2", server, ne), Body: c06BurstBody(server, ne, 2),
 				Bounds: simrt.B(0, 0, 0), Cfg: simrt.Config{MaxSteps: 100000, BranchAfterMark: true}})
+		}
+	}
+	// transports that take no data for 1.5 s (3 s) while four datagrams are written in each direction
+	for _, d := range []time.Duration{1500 * time.Millisecond, 3 * time.Second} {
+		if d > 2*time.Second && !r.Thorough() {
+			continue
+		}
+		for _, two := range []bool{false, true} {
+			out = append(out, hx.Scenario{Name: fmt.Sprintf("c06:backpressure=%v,n=4,twoWriters=%v", d, two), Body: c06Body(4, two, false, d),
+				Bounds: simrt.B(0, 0, 0), Cfg: simrt.Config{MaxSteps: 200000, BranchAfterMark: true, BranchOnly: []string{"writer-"}}})
 		}
 	}
 	pb := 1
